@@ -10,6 +10,7 @@ import (
 	"sort"
 	"strings"
 	"sync"
+	"sync/atomic"
 	"time"
 
 	"gosmt/sym"
@@ -447,6 +448,7 @@ func (in *Interp) branch(cond *sym.Term) bool {
 	alt[len(in.trace)] = decision{Kind: 0, N: 0}
 	in.pushWork(alt)
 	in.local.Forks++
+	in.noteFork()
 	in.trace = append(in.trace, decision{Kind: 0, N: 1})
 	in.assume(cond)
 	return true
@@ -642,6 +644,7 @@ func (in *Interp) concretize(t *sym.Term, why string) *big.Int {
 	alt[len(in.trace)] = decision{Kind: 2, Excl: ne}
 	in.pushWork(alt)
 	in.local.Forks++
+	in.noteFork()
 	in.trace = append(in.trace, decision{Kind: 1, Val: v})
 	in.assume(in.B.Eq(t, in.B.Int(v)))
 	return v
@@ -666,6 +669,7 @@ func (in *Interp) choice(n int) int {
 		in.pushWork(alt)
 	}
 	in.local.Forks += n - 1
+	in.noteFork()
 	in.trace = append(in.trace, decision{Kind: 3, N: 0})
 	return 0
 }
@@ -1125,3 +1129,43 @@ func bitsRat(u uint64, bits int) (*big.Rat, bool) {
 }
 
 var _ = types.Typ
+
+
+var forkSites sync.Map // site -> *int64 (diagnostics, GOSMT_FORKSITES=1)
+var forkSitesOn = os.Getenv("GOSMT_FORKSITES") != ""
+
+func (in *Interp) noteFork() {
+	if !forkSitesOn {
+		return
+	}
+	site := in.curSite()
+	if len(in.stack) > 1 {
+		fr := in.stack[len(in.stack)-2]
+		site += " <- " + fr.fn.Name()
+	}
+	v, _ := forkSites.LoadOrStore(site, new(int64))
+	atomic.AddInt64(v.(*int64), 1)
+}
+
+// DumpForkSites prints the fork counts per site (diagnostics).
+func DumpForkSites() {
+	if !forkSitesOn {
+		return
+	}
+	type kv struct {
+		k string
+		n int64
+	}
+	var all []kv
+	forkSites.Range(func(k, v interface{}) bool {
+		all = append(all, kv{k.(string), *v.(*int64)})
+		return true
+	})
+	sort.Slice(all, func(i, j int) bool { return all[i].n > all[j].n })
+	for i, e := range all {
+		if i >= 15 {
+			break
+		}
+		fmt.Fprintf(os.Stderr, "FORKSITE %6d %s\n", e.n, e.k)
+	}
+}
